@@ -145,3 +145,95 @@ Lemma w_ok_lemma :
   parse_block rd_plain (write_block w_ok) =
   PDone [([65;99;99;101;112;116], [[103;122]; [100]]); ([58;112;97;116;104], [[47]]); ([195;169], [[49]])] 31 0 [] 6.
 Proof. vm_compute. split; reflexivity. Qed.
+
+(* ---------- Framer level: fixed-size control frames written by the Framer are read back exactly,
+   consuming exactly 8 + length bytes, whatever follows on the wire ---------- *)
+Definition st_at (w : bytes) (o : Z) (cs : list chunk) : fstate :=
+  {| wire := w; off := o; chunks := cs; nexti := 0; pend := []; zerr := false; zinit := false; lim := 0 |}.
+Lemma rd_wire4 a b c d w o cs :
+  rd_wire 4 (st_at (a :: b :: c :: d :: w) o cs) = ROk [a; b; c; d] (st_at w (o + 4) cs).
+Proof.
+  unfold rd_wire. cbn [Z.leb Z.compare Pos.compare wire st_at].
+  assert (E : (4 <=? blen (a :: b :: c :: d :: w)) = true).
+  { apply Z.leb_le. unfold blen. simpl length. lia. }
+  rewrite E. reflexivity.
+Qed.
+Lemma dec32_cons n : 0 <= n < 2^32 ->
+  dec32 [(n / 2^24) mod 256; (n / 2^16) mod 256; (n / 2^8) mod 256; n mod 256] = n.
+Proof. exact (dec32_be32 n). Qed.
+Lemma m31_small z : 0 <= z < 2^31 -> m31 z = z.
+Proof. intros H. unfold m31. apply Z.mod_small. exact H. Qed.
+
+Ltac rd4 := rewrite rd_wire4; cbv beta iota.
+
+Lemma rst_roundtrip sid st rest cs :
+  0 < sid < 2^31 -> 0 < st < 2^32 ->
+  read_frame (st_at (fst (write_frame (FRst sid st)) ++ rest) 0 cs) =
+  (VL [VZ 3; VZ 3; VZ 0; VZ 8; VZ sid; VZ st], st_at rest 16 cs).
+Proof.
+  intros Hs Ht. unfold write_frame.
+  assert (E1 : (sid =? 0) = false) by (apply Z.eqb_neq; lia). rewrite E1.
+  assert (E2 : (st =? 0) = false) by (apply Z.eqb_neq; lia). rewrite E2.
+  cbn [fst]. change (cf_header 3 0 8) with [128; 3; 0; 3; 0; 0; 0; 8].
+  unfold be32. cbn [app]. unfold read_frame.
+  rd4. change (dec32 [128; 3; 0; 3]) with 2147680259.
+  rd4. change (dec32 [0; 0; 0; 8]) with 8.
+  cbv zeta. change (2147680259 <? 2 ^ 31) with false. cbv iota.
+  change (2147680259 mod 2 ^ 16) with 3. cbn [Z.eqb Pos.eqb orb].
+  rd4. rewrite dec32_cons by (change (2^32) with (2 * 2^31); lia).
+  rd4. rewrite dec32_cons by lia.
+  rewrite E2. rewrite (m31_small sid) by lia. rewrite E1.
+  reflexivity.
+Qed.
+Lemma ping_roundtrip id rest cs :
+  0 < id < 2^32 ->
+  read_frame (st_at (fst (write_frame (FPing id)) ++ rest) 0 cs) =
+  (VL [VZ 6; VZ 3; VZ 0; VZ 4; VZ id], st_at rest 12 cs).
+Proof.
+  intros Hi. unfold write_frame.
+  assert (E1 : (id =? 0) = false) by (apply Z.eqb_neq; lia). rewrite E1.
+  cbn [fst]. change (cf_header 6 0 4) with [128; 3; 0; 6; 0; 0; 0; 4].
+  unfold be32. cbn [app]. unfold read_frame.
+  rd4. change (dec32 [128; 3; 0; 6]) with 2147680262.
+  rd4. change (dec32 [0; 0; 0; 4]) with 4.
+  cbv zeta. change (2147680262 <? 2 ^ 31) with false. cbv iota.
+  change (2147680262 mod 2 ^ 16) with 6. cbn [Z.eqb Pos.eqb orb].
+  rd4. rewrite dec32_cons by lia. rewrite E1.
+  reflexivity.
+Qed.
+Lemma window_update_roundtrip sid d rest cs :
+  0 <= sid < 2^31 -> 0 <= d < 2^31 ->
+  read_frame (st_at (fst (write_frame (FWindow sid d)) ++ rest) 0 cs) =
+  (VL [VZ 9; VZ 3; VZ 0; VZ 8; VZ sid; VZ d], st_at rest 16 cs).
+Proof.
+  intros Hs Hd. unfold write_frame.
+  cbn [fst]. change (cf_header 9 0 8) with [128; 3; 0; 9; 0; 0; 0; 8].
+  unfold be32. cbn [app]. unfold read_frame.
+  rd4. change (dec32 [128; 3; 0; 9]) with 2147680265.
+  rd4. change (dec32 [0; 0; 0; 8]) with 8.
+  cbv zeta. change (2147680265 <? 2 ^ 31) with false. cbv iota.
+  change (2147680265 mod 2 ^ 16) with 9. cbn [Z.eqb Pos.eqb orb].
+  rd4. rewrite dec32_cons by (change (2^32) with (2 * 2^31); lia).
+  change (2147680265 / 2 ^ 16 mod 2 ^ 15) with 3.
+  change (8 / 2 ^ 24) with 0. change (8 mod 2 ^ 24) with 8. cbn [Z.eqb Pos.eqb negb].
+  rd4. rewrite dec32_cons by (change (2^32) with (2 * 2^31); lia).
+  rewrite !m31_small by lia. reflexivity.
+Qed.
+Lemma goaway_roundtrip last st rest cs :
+  0 <= last < 2^31 -> 0 <= st < 2^32 ->
+  read_frame (st_at (fst (write_frame (FGoAway last st)) ++ rest) 0 cs) =
+  (VL [VZ 7; VZ 3; VZ 0; VZ 8; VZ last; VZ st], st_at rest 16 cs).
+Proof.
+  intros Hs Hd. unfold write_frame.
+  cbn [fst]. change (cf_header 7 0 8) with [128; 3; 0; 7; 0; 0; 0; 8].
+  unfold be32. cbn [app]. unfold read_frame.
+  rd4. change (dec32 [128; 3; 0; 7]) with 2147680263.
+  rd4. change (dec32 [0; 0; 0; 8]) with 8.
+  cbv zeta. change (2147680263 <? 2 ^ 31) with false. cbv iota.
+  change (2147680263 mod 2 ^ 16) with 7. cbn [Z.eqb Pos.eqb orb].
+  rd4. rewrite dec32_cons by (change (2^32) with (2 * 2^31); lia).
+  change (2147680263 / 2 ^ 16 mod 2 ^ 15) with 3.
+  change (8 / 2 ^ 24) with 0. change (8 mod 2 ^ 24) with 8. cbn [Z.eqb Pos.eqb negb].
+  rd4. rewrite dec32_cons by lia.
+  rewrite !m31_small by lia. reflexivity.
+Qed.
